@@ -1132,6 +1132,20 @@ fn build_config<'a>(
     }
     b = if variant == 2 {
         b.session_expiry_interval(cfg.session_expiry).keepalive_interval(cfg.keepalive).client_id(&cfg.client_id).map_err(|e| format!("{e:?}"))?
+    } else if variant == 0 && (cfg.keepalive == 60 || cfg.session_expiry == 0 || cfg.client_id.is_empty()) {
+        // what equals the documented default (keep-alive 60 s, session expiry 0, empty client
+        // identifier) is left unset, as an application would
+        let mut b = b;
+        if !cfg.client_id.is_empty() {
+            b = b.client_id(&cfg.client_id).map_err(|e| format!("{e:?}"))?;
+        }
+        if cfg.keepalive != 60 {
+            b = b.keepalive_interval(cfg.keepalive);
+        }
+        if cfg.session_expiry != 0 {
+            b = b.session_expiry_interval(cfg.session_expiry);
+        }
+        b
     } else {
         b.client_id(&cfg.client_id).map_err(|e| format!("{e:?}"))?.keepalive_interval(cfg.keepalive).session_expiry_interval(cfg.session_expiry)
     };
